@@ -65,6 +65,8 @@ pub fn run(o: &Opts) -> i32 {
         if ctx.lookup(name) != v { nviol += 1; writeln!(orc, "{}", json!({"law": "determinism", "name": name})).unwrap(); }
         if samples.len() < 10 && total % 9973 == 1 { samples.push(name.to_string()); }
     };
+    // names next to the reserved ones (`ans`, `ANS`, `_` denote the previous answer; nothing else does)
+    for n in ["aNs", "Ans", "ANs", "anS", "AnS", "aNS", "anss", "answer", "__", "_s", "a_", "_m"] { emit(n, &mut rng); }
     for b in &bases {
         emit(b, &mut rng);
         emit(&format!("{}s", b), &mut rng);
